@@ -753,10 +753,16 @@ def position_exists(prog, cg, eff, chk, rid):
             def dependent_throw(rd):
                 later = sorted([r.seq for r in ip.reads if r.seq > rd.seq] + [fw])
                 for (seq, ty, node, fn, conds) in ip.throws:
-                    if rd.seq < seq < later[0] and any(
-                            x[0] == 'op' and isinstance(x[1], str) and x[1].startswith('sql:')
-                            for c in conds for x in _flat(c)):
-                        return True
+                    if not (rd.seq < seq < later[0]):
+                        continue
+                    for c in conds:
+                        sub = _flat(c)
+                        if any(x[0] == 'op' and isinstance(x[1], str) and x[1].startswith('sql:') for x in sub):
+                            return True         # the result of the probing statement
+                        if any(x[0] == 'loc' and (x[1] or '').lower() == 'playlist' for x in vf.leaves(c)):
+                            return True         # a value fetched by it
+                        if any(x[0] in ('call', 'callm') for x in sub) and any(x[0] == 'in' for x in sub):
+                            return True         # !exists(row.parent_list_id): the call the read was made in
                 return False
             reads = [rd for rd in ip.reads if rd.seq < fw and 'playlist' in _tables_of(rd)]
             parent_ok = any(from_field((rd.where or {}).get('id'), 'parent_list_id') and dependent_throw(rd) for rd in reads)
